@@ -324,6 +324,11 @@ func genRequest(rng *rand.Rand, tok string, big bool) *genReq {
 			val = "X-Hop" + strconv.Itoa(i) + "-" + tok
 		}
 		g.Hop = append(g.Hop, rawhttp.Field{Name: h, Value: val})
+		if h == "Connection" && rng.Intn(2) == 0 {
+			// the field the client nominates as hop-by-hop is really sent (under a differently-cased name)
+			g.Hop = append(g.Hop, rawhttp.Field{Name: "HOP0-" + strings.ToUpper(tok), Value: "nominated-" + val})
+			hopShape |= 1 << 8
+		}
 	}
 	fr := "none"
 	if hasBody {
